@@ -49,6 +49,7 @@ pub fn parse_choice(
         remainder = rest.trim_start();
         nesting_level += 1;
     }
+    crate::nesting::check_marker_level(nesting_level)?;
     let (label, mut conditions, remainder) = parse_choice_prefixes(remainder)?;
     let mut choice_text = parse_choice_text(remainder)?;
     let mut is_invisible_default =
